@@ -85,6 +85,12 @@ func order(policy string, opts []vrt.Option, last int, ctl *vrt.Ctl) []vrt.Optio
 		notData := func(o vrt.Option) bool { return !strings.HasPrefix(o.Desc, "S.send DATA") }
 		pick(func(o vrt.Option) bool { return o.Tid == last && notData(o) })
 		pick(notData)
+	case "rund": // keep running the last released thread, else the youngest thread first
+		pick(func(o vrt.Option) bool { return o.Tid == last })
+		for i := len(opts) - 1; i >= 0; i-- {
+			o := opts[i]
+			pick(func(p vrt.Option) bool { return p.Tid == o.Tid })
+		}
 	default: // "run": keep running the last released thread
 		pick(func(o vrt.Option) bool { return o.Tid == last })
 	}
